@@ -41,6 +41,7 @@ def main():
         with open(args.replay) as f:
             rep = json.load(f)
         sys.exit(mod.replay(chk, rep))
+    chk.clean_replays()
     try:
         mod.run(chk)
     except Exception as e:  # an internal error is a failure of the check, never a pass
